@@ -93,8 +93,10 @@ ResetScen(s) ==
   /\ scen' = i.scen /\ cb' = i.cb /\ cnt' = i.cnt /\ kcb' = i.kcb /\ pc' = i.pc /\ ki' = i.ki /\ wcount' = i.wcount /\ coro' = i.coro
   /\ resumes' = i.resumes /\ err' = i.err /\ ev' = i.ev /\ mm' = i.mm
 
+\* co_await Future is a single-future form; a rejecting executor only matters to the forms that use one
 Init == \E f \in Forms, n \in Ns, o \in OutSets, e \in Execs :
-           Len(Chars(o)) = n /\ InitScen([form |-> f, n |-> n, outs |-> Chars(o), exec |-> e])
+           /\ Len(Chars(o)) = n /\ (f = "fut" => n = 1) /\ (e = "stop" => f \in {"sticky", "on"})
+           /\ InitScen([form |-> f, n |-> n, outs |-> Chars(o), exec |-> e])
 
 (***************************************************************************)
 (* The coroutine goes on after the await (in the tail of the current slice  *)
